@@ -390,10 +390,42 @@ func (t *timeSeq) seqs(v ssa.Value, env map[*ssa.Parameter]ssa.Value, depth int)
 		if c, ok := x.Tuple.(*ssa.Call); ok && x.Index == 0 {
 			if n, recv, args, _ := methodCallOf(c); n == "Plus" && len(args) == 1 {
 				m := "?"
-				if pl, ok := t.p.durationMinutes(args[0]); ok && pl.isConst() {
-					m = fmt.Sprint(pl.C)
+				if pl, ok := t.p.durationMinutes(args[0]); ok {
+					// parameters of a helper that are bound to constants at its call site
+					total, allConst := pl.C, true
+					for k, coef := range pl.Terms {
+						prm, isP := pl.leafV[k].(*ssa.Parameter)
+						if !isP {
+							allConst = false
+							continue
+						}
+						b, bound := env[prm]
+						kk, isK := constInt(b)
+						if !bound || !isK {
+							allConst = false
+							continue
+						}
+						total += coef * kk
+					}
+					if allConst {
+						m = fmt.Sprint(total)
+					}
 				}
 				return app(t.seqs(recv, env, depth+1), "plus("+m+")")
+			}
+			// (value, error) of a local helper: what it returns in position 0
+			if callee := staticCallee(c); callee != nil && (callee.Parent() != nil || isHelper(callee)) && len(callee.Params) == len(c.Call.Args) {
+				e2 := map[*ssa.Parameter]ssa.Value{}
+				for i, prm := range callee.Params {
+					e2[prm] = c.Call.Args[i]
+				}
+				var out []string
+				for _, ret := range returnsOf(callee) {
+					if len(ret.Results) >= 1 && !isNilConst(ret.Results[0]) {
+						out = append(out, t.seqsWithEnv(ret.Results[0], e2, env, depth+1)...)
+					}
+				}
+				return uniq(out)
 			}
 		}
 	case *ssa.Call:
@@ -405,7 +437,7 @@ func (t *timeSeq) seqs(v ssa.Value, env map[*ssa.Parameter]ssa.Value, depth int)
 			}
 		case sameFn(callee, t.round):
 			return app(t.seqs(x.Call.Args[0], env, depth+1), "round")
-		case callee != nil && callee.Parent() != nil && len(callee.Params) == len(x.Call.Args):
+		case callee != nil && (callee.Parent() != nil || isHelper(callee)) && len(callee.Params) == len(x.Call.Args):
 			// local helper: describe what it returns with its parameters bound
 			e2 := map[*ssa.Parameter]ssa.Value{}
 			for i, prm := range callee.Params {
